@@ -8,7 +8,7 @@ import Rpki.Proofs.DerLemmas
 import Rpki.Proofs.ManifestCodec
 import Rpki.Proofs.AsDerCodec
 import Rpki.Proofs.IpDerCodec
-import Rpki.Props.C04
+import Rpki.Proofs.DerLemmas
 namespace Rpki.Roa
 open Rpki.Der
 
@@ -388,7 +388,7 @@ theorem capOk_iter (W : Nat) (v : Option Bytes) (h : CapOk W v) :
   | some cap =>
     obtain ⟨k, hk⟩ := h cap rfl
     obtain ⟨items, h1, _, h3⟩ :=
-      Props.C04.capture_iterate_parity takeOptAddr (addrOk W) cap.length cap 0 k hk
+      Der.capture_iterate_parity takeOptAddr (addrOk W) cap.length cap 0 k hk
     exact ⟨items, h1, h3⟩
 
 /-- the steps of `decodeContent` -/
